@@ -1,6 +1,11 @@
 """Per-property registry: generator, owned observables, tolerance, trusted base, notes."""
 import cases
 
+TIERL_NOTE = ("tier-L scalar laws (x+y=y+x, x*y=y*x, 0+x=x, -(-x)=x, monotonicity of *1e9 / `as i64` / adding a non-negative number) are no longer "
+              "only assumed for f32: they are proved for the scalar type SF = finite binary32 numbers with correctly rounded + - * / "
+              "(Thm/Lemmas/SoftScalar.lean over Rrtk.Soft.rne32), and every tier-L theorem has a `_binary32` corollary without arithmetic "
+              "hypotheses (Thm/Ext/*.lean). Caveats, stated in the files: SF has ONE zero (0.0 + -0.0 = +0.0 in real binary32, so 0+x=x holds only "
+              "up to the sign of a zero result) and an exponent unbounded upward (overflow to infinity is outside SF)")
 COMMON_TB = [
     "Lean 4.33 kernel; axioms per theorem as listed in axioms_per_theorem (⊆ propext, Classical.choice, Quot.sound)",
     "hand-written Lean model /verif/lean/Rrtk/*.lean of the anchored Rust code (modelled, not verified)",
@@ -41,7 +46,7 @@ PROPS["C01"] = dict(
          "constants, PositionDerivative/Command conversions; values random finite. distinct_nontrivial = distinct case "
          "lines the model executes",
     trusted_base=COMMON_TB + ["Gen/Constants.lean is regenerated from src/dimensions/constants.rs by tools/gen.py (regex); "
-                              "the theorems constants_* are re-checked by the kernel against the regenerated table on every run"],
+                              "the theorems constants_* are re-checked by the kernel against the regenerated table on every run"] + [TIERL_NOTE],
     assumptions=COMMON_AS,
 )
 
@@ -105,7 +110,7 @@ PROPS["C09"] = dict(
          "disconnect(i), each preceded by random state/command writes and followed by all three reads on all terminals; random longer "
          "sequences on up to 6 (8) terminals; all own/partner presence combinations x timestamp orders incl. ties for the reads; "
          "regression cases for the repaired connect-twice panic",
-    trusted_base=COMMON_TB + ["RefCell borrow semantics are modelled (self-link / same-cell double borrow = Panic.borrow), not verified"],
+    trusted_base=COMMON_TB + ["RefCell borrow semantics are modelled (self-link / same-cell double borrow = Panic.borrow), not verified"] + [TIERL_NOTE],
     assumptions=COMMON_AS,
 )
 
@@ -150,7 +155,7 @@ PROPS["C04"] = dict(
          "scale exactly) and by the same history fed to the controller assembled from the crate's own streams as in examples/pid.rs "
          "(outputs must agree after every present input) — oracles evaluated on the implementation's own outputs; all lines compared "
          "bit-for-bit with the model",
-    trusted_base=COMMON_TB,
+    trusted_base=COMMON_TB + [TIERL_NOTE],
     assumptions=COMMON_AS,
     partial="Proved: output = non-incremental textbook PID of the current run for every history (tier S, bit-exact), reset rule, shift "
             "invariance (tier S), scaling in exact arithmetic (tier R), exact agreement with the controller assembled from the crate's own "
@@ -187,7 +192,10 @@ PROPS["C06"] = dict(
     rule=MP_RULE + "; plus a structural oracle on the implementation's own outputs (absence iff t<0, piece order, mode vs piece, "
                    "history = matching accessor bit-identically, end command after completion, 0<=t1<=t2<=t3)",
     trusted_base=COMMON_TB + ["new_times_ordered is tier L: five named monotonicity facts about binary32 (x*1e9, `as i64`, a<=a+b for b>=0, "
-                              "transitivity of <=, 0*1e9 as i64 = 0)"],
+                              "transitivity of <=, 0*1e9 as i64 = 0) — all five are PROVED for the finite binary32 numbers with correctly rounded "
+                              "arithmetic (scalar type SF over Rrtk.Soft.rne32, Thm/Lemmas/SoftScalar.lean): new_times_ordered_binary32 (Thm/Ext/C06.lean) "
+                              "has no arithmetic hypothesis; what stays trusted is hardware = rne32 (compared bit-for-bit under C18, group sf) and "
+                              "that no intermediate overflows to infinity"],
     assumptions=["Time arithmetic inside the accessors does not overflow (true for profiles in the stated ranges)"],
 )
 
@@ -237,7 +245,7 @@ PROPS["C13"] = dict(
     rule="the C08 device scenarios with commands of all three kinds carrying distinct timestamps written on own/external terminals (some "
          "terminals without a command), 1..4 (8) rounds; chains of 1..5 inverters/gear trains/axles joined by connected terminals with a "
          "command issued at either end and the devices updated in order; all command reads compared bit-for-bit",
-    trusted_base=DEV_TB,
+    trusted_base=DEV_TB + [TIERL_NOTE],
     assumptions=COMMON_AS + ["gear_relays_newest assumes the gear train's two terminals are not wired to each other (degenerate loop)"],
 )
 
@@ -267,7 +275,7 @@ PROPS["C12"] = dict(
          "uniform), windows from 1 ns to 2 h incl. shorter than a step, smoothing in {0, 1, .5, .25, .9, .01, uniform[0,1]}; constant "
          "inputs; compared bit-for-bit with the Float32 model (powf = Float32.pow vs f32::powf); range oracle on the implementation's "
          "numbers (output within [min,max] of the samples since the last reset) and no-panic oracle",
-    trusted_base=COMMON_TB + ["powf: assumed powf b 0 = 1 and 0<=powf b d<=1 for b in [0,1], d>=0 (tier-R hypotheses of ewma_convex*)"],
+    trusted_base=COMMON_TB + ["powf: assumed powf b 0 = 1 and 0<=powf b d<=1 for b in [0,1], d>=0 (tier-R hypotheses of ewma_convex*)"] + [TIERL_NOTE],
     assumptions=["timestamps and window stay inside the i64 no-overflow range: `output.time - window` and `output.time - prev_time` are "
                  "plain i64 subtractions in the code (i64::MIN timestamps overflow; outside the modelled range)",
                  "Quantity inputs keep one unit"],
@@ -366,7 +374,7 @@ PROPS["C19"] = dict(
          "(checked) and with only dim_check_debug (unchecked); thorough: all six of {std, alloc+libm, alloc+micromath} x {checked, unchecked}, "
          "debug+dim_check_debug, and four release-profile configurations",
     trusted_base=COMMON_TB + ["rustc's cfg resolution selects the bodies the model assumes for each configuration: exactly what the "
-                              "multi-configuration correspondence tests (not proved)"],
+                              "multi-configuration correspondence tests (not proved)"] + [TIERL_NOTE],
     assumptions=COMMON_AS + ["powf implementations (std/libm/micromath) are outside the claim, as in the property"],
     partial="Proved: erasure on the model's configuration switch (checked run succeeds => unchecked run on unit-erased inputs gives the "
             "same values; unchecked never dimension-panics / rejects; values are plain scalar arithmetic), manual abs = abs. Not proved: "
